@@ -66,3 +66,12 @@ def reset_counter(fail_at=None, exc=None):
     COUNTER["fail_at"] = fail_at
     COUNTER["exc"] = exc
     COUNTER["calls"] = []
+
+
+def basickey(value):
+    """A key type living at a dotted name (for prefix tests): same contract as basic-key."""
+    v = str(value)
+    ok = v[:1].isascii() and v[:1].isalpha() and all(c.isascii() and (c.isalnum() or c in "-._") for c in v)
+    if not ok:
+        raise ValueError("not a basic key: %r" % (value,))
+    return v.lower()
